@@ -142,7 +142,10 @@ def replay(pid, spec, path, drv):
             drv.build_websim()
         elif os.path.basename(exe).startswith("mon-"):
             tag = os.path.basename(exe)[4:]
-            drv.build_mon(features=[f for f in tag.split("+") if f != "none"], tag=tag)
+            if tag == "default":
+                drv.build_mon()
+            else:
+                drv.build_mon(features=[f for f in tag.split("+") if f != "none"], tag=tag)
         elif exe == "cargo":
             drv.build_mon_miri()
         elif "target-asan" in exe or "target-tsan" in exe:
